@@ -47,6 +47,12 @@ impl<Res> InFlightRequests<Res> {
         self.request_data.len()
     }
 
+    /// Number of pending deadline timers (verification gauge).
+    #[cfg(tarpc_verif)]
+    pub fn verif_timers(&self) -> usize {
+        self.deadlines.len()
+    }
+
     /// Returns true iff there are no requests in flight.
     pub fn is_empty(&self) -> bool {
         self.request_data.is_empty()
